@@ -69,6 +69,55 @@ def facts_at(fn, bb):
     return out
 
 
+def decision_facts(fn, bb, depth=0):
+    """facts_at(bb) plus, for a fact that only tests a carried flag (`let go = a > b; .. if go`, or
+    `let by = if a > b { Some(x) } else { None }; if let Some(x) = by`), the facts under which the flag got that
+    value.  The added facts held when the *decision* was made -- their operands may have changed since -- so this
+    is for rules about what a decision was based on, not for discharging a later operation."""
+    sy = sym(fn)
+    out = list(facts_at(fn, bb))
+    if depth > 2:
+        return out
+    for s, fa in list(out):
+        want = None
+        if fa[0] == "bool" and fa[1][0] == "l":
+            want = (fa[1][1], "bool", fa[2])
+        elif fa[0] == "eq" and fa[1][0] == "discr" and fa[1][1][0] == "l":
+            want = (fa[1][1][1], "discr", fa[2])
+        if want is None:
+            continue
+        l, kind, val = want
+        hits = []
+        for d in sy.defs.get(l, []):
+            if d[0] != "stmt":
+                continue
+            rv = d[3]
+            e = sy.rvalue(rv, 1)
+            if kind == "bool":
+                if e[0] == "c" and bool(e[1]) == val:
+                    hits.append((d[1], None))
+                elif e[0] == "bin" and e[1] in NEG:
+                    op = e[1] if val else NEG[e[1]]
+                    hits.append((d[1], ("cmp", op, e[2], e[3])))
+                elif e[0] != "c":
+                    hits.append((d[1], "?"))
+            else:
+                if rv["k"] == "agg" and rv.get("adt"):
+                    idx = rv.get("vidx")
+                    if idx is None or idx == val:
+                        hits.append((d[1], None))
+                elif rv["k"] == "use" and "c" in rv["a"] and "enum" in rv["a"]["c"]:
+                    hits.append((d[1], None))  # constant variant: cannot tell which without the table; keep
+                else:
+                    hits.append((d[1], "?"))
+        if len(hits) == 1 and hits[0][1] != "?":
+            db, extra = hits[0]
+            if extra is not None:
+                out.append((db, extra))
+            out += decision_facts(fn, db, depth + 1)
+    return out
+
+
 def holds(fn, bb, pred):
     """is there a dominating edge fact satisfying pred(fact)?"""
     for s, f in facts_at(fn, bb):
